@@ -8,6 +8,7 @@ import DimodProofs.C02SampleSet
 import DimodProofs.C02Spin
 import DimodProofs.C02Init
 import DimodProofs.C02ViewBridge
+import DimodProofs.C02PyHist
 import Properties.C04
 
 /-! # C02 — changing between spin and binary representation never changes any energy
@@ -400,5 +401,68 @@ theorem view_write_eq_convert_edit_back (m : Bqm) (i : m.Inv) (tv : VT) :
   · have r := Bqm.view_setQuadratic i tv u v b hne
     exact C02Bridge.write_is_convert_edit_back i r.2.2 (C02Bridge.vSetQuadratic_vt m tv u v b) tv
       (fun q => q.quadOp u v b true) r.1
+
+end C02
+
+/-! ## the dict back-end (`pybqm.py`) on every state an edit history can leave behind
+
+`LBqm` (`DimodModel/Convert.lean`, `DimodModel/PyHist.lean`): `_adj` as an insertion-ordered dict of insertion-ordered
+dicts, every data-level method as coded — including `relabel_variables` (one `(old, new)` step: the linear entry first,
+the interactions re-inserted one by one, `del adj[old]`) and the one-pass loop of `change_vartype`, which reads the
+variable's own entry *wherever it sits* in its neighbourhood dict.  `evalL ½` is the polynomial of the dict of dicts
+(diagonal entries linear, both stored copies of an interaction with weight ½).  The insertion order of the model is
+compared with `_adj` of the real object after every generated history (`lb … order`). -/
+
+namespace C02
+
+open En Generated.Vartype En.LBqm
+
+/-- **`pyBQM.change_vartype` on any well-formed state**, SPIN → BINARY: whatever the order of the keys in `_adj` and in
+    each neighbourhood (`LInv`: keys duplicate-free, each neighbourhood holds its own variable's entry somewhere,
+    neighbours are variables, both copies of an interaction carry the same bias), the converted model at `x` has the
+    value of the original at `s = 2x − 1`.  The multipliers are the generated ones. -/
+theorem pybqm_changeVartype_toBinary_any_state (m : LBqm Rat) (i : LInv m) (hvt : m.vt = .spin) (x : Label → Rat) :
+    evalL (1/2) (m.changeVartypeWith pyToBinary pyToSpin .binary) x = evalL (1/2) m (fun v => 2 * x v + -1) :=
+  changeVartypeWith_evalL pyToBinary pyToSpin m i .binary (by rw [hvt]; decide) 2 (-1)
+    (fun _ => pyToBinary_affine) (fun h => by cases h) x
+
+/-- BINARY → SPIN: the converted model at `s` has the value of the original at `x = (s + 1)/2` -/
+theorem pybqm_changeVartype_toSpin_any_state (m : LBqm Rat) (i : LInv m) (hvt : m.vt = .binary) (s : Label → Rat) :
+    evalL (1/2) (m.changeVartypeWith pyToBinary pyToSpin .spin) s = evalL (1/2) m (fun v => 1/2 * s v + 1/2) :=
+  changeVartypeWith_evalL pyToBinary pyToSpin m i .spin (by rw [hvt]; decide) (1/2) (1/2)
+    (fun h => by cases h) (fun _ => pyToSpin_affine) s
+
+/-- **the representation invariant holds after every history** of data-level calls (`add_linear`, `set_linear`,
+    `add_quadratic`, `remove_interaction`, `remove_variable`, `relabel_variables` one safe step at a time, the offset
+    setter, `change_vartype`; a raising call leaves the model unchanged) from the empty model -/
+theorem pybqm_history_invariant (vt : En.VT) (ops : List (HOp Rat)) : LInv (LBqm.hrun vt ops) :=
+  (GInv.hrun vt ops).toLInv
+
+/-- … and by each further call from any state that satisfies it (so also from a model built by `from_ising` …) -/
+theorem pybqm_step_invariant (m : LBqm Rat) (g : GInv m) (op : HOp Rat) : GInv (m.hstep op) := g.hstep op
+
+/-- **conversion after any history** (the form of the property): for every history and every spin sample `s`, the
+    model converted to BINARY has at `x = (s + 1)/2` the energy the model reached by the history has at `s`; and for a
+    BINARY model the other way round -/
+theorem pybqm_changeVartype_after_history (vt : En.VT) (ops : List (HOp Rat)) :
+    ((LBqm.hrun vt ops).vt = .spin → ∀ s : Label → Rat,
+      evalL (1/2) ((LBqm.hrun vt ops).changeVartypeWith pyToBinary pyToSpin .binary) (fun v => (s v + 1) / 2)
+        = evalL (1/2) (LBqm.hrun vt ops) s) ∧
+    ((LBqm.hrun vt ops).vt = .binary → ∀ x : Label → Rat,
+      evalL (1/2) ((LBqm.hrun vt ops).changeVartypeWith pyToBinary pyToSpin .spin) (fun v => 2 * x v - 1)
+        = evalL (1/2) (LBqm.hrun vt ops) x) := by
+  have i := pybqm_history_invariant vt ops
+  constructor
+  · intro hvt s
+    rw [pybqm_changeVartype_toBinary_any_state _ i hvt]
+    congr 1; funext v; ring
+  · intro hvt x
+    rw [pybqm_changeVartype_toSpin_any_state _ i hvt]
+    congr 1; funext v; ring
+
+/-- non-vacuity, the state seeded change C02-5 needs: `a` with an interaction is relabelled to `c`; the linear entry of `c`
+    is first in its neighbourhood as coded (the theorem above does not depend on that) -/
+example : (LBqm.hrun .spin [.addLinear (.int 0) 1, .addQuadratic (.int 0) (.int 1) 2, .relabel (.int 0) (.int 2)]).rawOrder
+    = [(.int 1, [.int 1, .int 2]), (.int 2, [.int 2, .int 1])] := by decide +kernel
 
 end C02
